@@ -51,14 +51,16 @@ class Gen:
     def attr_syntax(self, p=0.15):
         if not self.attrs or self.rng.random() > p:
             return '', {}
-        classes = [self.rng.choice(['cls', 'a', 'b-c']) for _ in range(self.rng.randint(0, 2))]
-        classes = list(dict.fromkeys(classes))
+        # (README: .class1.class2{attr value} is {class class1 class2|attr value}: classes in the order written, repeats included)
+        classes = [self.rng.choice(['cls', 'a', 'b-c']) for _ in range(self.rng.randint(0, 3))]
         pairs = {}
         if self.rng.random() < 0.5:
             pairs['title'] = self.rng.choice(['t', 'a b'])
+        if self.rng.random() < 0.2:
+            pairs[self.rng.choice(['border', 'status', 'period'])] = ''         # an attribute written without a value
         s = ''.join('.' + c for c in classes)
         if pairs:
-            s += '{' + '|'.join('%s %s' % kv for kv in pairs.items()) + '}'
+            s += '{' + '|'.join(('%s %s' % kv) if kv[1] else kv[0] for kv in pairs.items()) + '}'
         attrs = dict(pairs)
         if classes:
             attrs['class'] = ' '.join(classes)
